@@ -23,7 +23,13 @@ Lemma inserter_fn_ok st tos : forall j view s,
 Proof.
   induction tos as [|t tl IH]; intros j view s Hs; cbn [inserter_fn]; [exact Hs|].
   destruct (negb (to_status t =? st)); [apply IH, Hs|].
-  unfold bind at 1, get_w. cbn [fst snd]. unfold bind at 1.
+  unfold bind at 1, get_w. cbn [fst snd].
+  destruct (to_dur t =? -2).
+  { unfold bind at 1.
+    destruct (emit_spec2 (TUser (UFTimer st j) view (lookup_run (o_w s) (r_run view)) (w_now (o_w s)) (UErr 15)) s) as (F1 & F2 & F3 & F4).
+    destruct (emit (TUser (UFTimer st j) view (lookup_run (o_w s) (r_run view)) (w_now (o_w s)) (UErr 15)) s) as [[[]|e] s1]; cbn [fst snd] in *; [|discriminate].
+    cbn [ret snd]. rewrite F4. destruct (o_dead s); [exact Hs|apply co_other; [exact I|exact Hs]]. }
+  unfold bind at 1.
   set (expire := if to_dur t <? 0 then None else Some (w_now (o_w s) + to_dur t)).
   destruct (emit_spec2 (TUser (UFTimer st j) view (lookup_run (o_w s) (r_run view)) (w_now (o_w s)) (UTime expire)) s) as (F1 & F2 & F3 & F4).
   destruct (emit (TUser (UFTimer st j) view (lookup_run (o_w s) (r_run view)) (w_now (o_w s)) (UTime expire)) s) as [[[]|e] s1]; cbn [fst snd] in *; [|discriminate].
